@@ -183,7 +183,8 @@ def cases(tier, seed):
     thorough = tier == "thorough"
     off = seed_offset(seed)
     gravs = [0.55, 0.7, 0.9, 1.2] + ([0.6, 0.8, 1.0] if thorough else [])
-    temps = [80.0, 150.0, 250.0, 400.0] + ([115.0, 200.0, 325.0] if thorough else [])
+    # 60 F with 14.7 psia in the pressure list is exactly the default standard state
+    temps = [60.0, 80.0, 150.0, 250.0, 400.0] + ([115.0, 200.0, 325.0] if thorough else [])
     pgas = list(P_GAS) + ([25, 200, 450, 800, 1500, 2500, 4000, 6500, 9500, 12500] if thorough else [])
     if seed:
         gravs.append(round(0.55 + 0.65 * off, 4))
